@@ -221,4 +221,13 @@ def run(ctx):
                      'the target is marked visited before the descent', 'DoCleanTarget:mark-after-descent')
         guarded(ctx, 'C18.O1', dt, e, lambda a: mentions_field(a, 'Cleaner::cleaned_'), None,
                 'descent only into inputs not yet visited', construct='DoCleanTarget:descent-unguarded')
-    ctx.floor('C18.O1', 16)
+    # "nothing to remove" is what remove() itself reported (ENOENT), not the answer of a query that follows symlinks
+    rmf = prog.fn('RealDiskInterface::RemoveFile')
+    for e in rmf.events('ret'):
+        if const_value(e.get('e')) == 1:
+            guarded(ctx, 'C18.O1', rmf, e, lambda a: mentions_call(a, 'remove') or mentions_call(a, 'unlink'), True,
+                    'RemoveFile reports "not there" only after remove()/unlink() failed', construct='RemoveFile:absent-verdict-not-from-remove')
+    probes = [e for e in rmf.events('call') if e.get('name') in ('access', 'stat', 'stat64', 'fopen', 'open', 'faccessat')]
+    ctx.check('C18.O1', not probes, rmf.name, 'RemoveFile:symlink-following-probe', rmf.loc,
+              'RemoveFile does not probe the path with a call that follows symlinks (%s)' % [e['name'] for e in probes])
+    ctx.floor('C18.O1', 17)
